@@ -1,6 +1,6 @@
 \* all page sizes 1..4 x all counts 0..13 (covers 0, exact multiples, one more than a multiple up to 3P+1) x all empty-geometry subsets up to 6 features
 CONSTANTS MaxCount = 13  MaxP = 4
 SPECIFICATION Spec
-INVARIANTS Conserved BufferBelowP PagesFull Complete CommittedOK
-PROPERTIES Terminates
+INVARIANTS Conserved BufferBelowP PagesFull Complete CommittedOK IntInvHolds
+PROPERTIES Terminates RefinesInt
 CONSTRAINT SmallEmpty
